@@ -290,7 +290,7 @@ func reflectBase(r asset.Repository) string {
 }
 
 func c10(ctx *run.Ctx) {
-	nhist := ctx.Pick(200, 3000)
+	nhist := ctx.Pick(400, 3000)
 	nops := ctx.Pick(12, 30)
 	per := 10
 	for b := 0; b < nhist/per; b++ {
